@@ -213,8 +213,10 @@ def main(argv=None):
         engine_errors.append(("vacuity", "no obligation was generated"))
 
     import shutil
-    shutil.rmtree(os.path.join(ROOT, "replays", pid), ignore_errors=True)
-    os.makedirs(os.path.join(ROOT, "replays", pid), exist_ok=True)
+    # replay files live under /verif/replays/<id> (cleared on every run); a scratch run may redirect them
+    RDIR = os.environ.get("PYVC_REPLAY_DIR", "replays")
+    shutil.rmtree(os.path.join(ROOT, RDIR, pid), ignore_errors=True)
+    os.makedirs(os.path.join(ROOT, RDIR, pid), exist_ok=True)
     violations = []
     known_lines = []
     # --- refuted obligations -> replay natively
@@ -230,7 +232,7 @@ def main(argv=None):
         if rep is not None:
             native_res = native(rep.get("script", "replay.py"), rep)
         kf = match_known(known, r["name"], rep, native_res)
-        path = os.path.join("replays", pid, safe(r["name"]) + ".json")
+        path = os.path.join(RDIR, pid, safe(r["name"]) + ".json")
         rec = dict(property=pid, obligation=r["name"], job=r["job"], backend=r["backend"], solver_model=r["model"],
                    meta=jsonable(r["meta"]), replay_request=rep, native_result=native_res)
         if kf is not None:
@@ -257,7 +259,7 @@ def main(argv=None):
                 known_lines.append("KNOWN-FINDING: property=%s %s" % (pid, kf.get("what", pv["name"])))
                 kf["_seen"] = True
             continue
-        path = os.path.join("replays", pid, safe(pv["name"] + "-" + str(len(violations))) + ".json")
+        path = os.path.join(RDIR, pid, safe(pv["name"] + "-" + str(len(violations))) + ".json")
         with open(os.path.join(ROOT, path), "w") as f:
             json.dump(dict(property=pid, obligation=pv["name"], failure=pv["failure"], replay_request=rep,
                            note="bounded run-time contract check failed on the real code with this concrete input"),
